@@ -53,6 +53,13 @@ func newErrClientCopyFailed(desc string) error {
 	return psqlerr.WithSeverity(psqlerr.WithCode(err, codes.Uncategorized), psqlerr.LevelError)
 }
 
+// newErrServerClosing is returned whenever a command is received after the
+// server has been closed.
+func newErrServerClosing() error {
+	err := errors.New("terminating connection, the server is shutting down")
+	return psqlerr.WithSeverity(psqlerr.WithCode(err, codes.AdminShutdown), psqlerr.LevelFatal)
+}
+
 type Session struct {
 	*Server
 	Statements StatementCache
@@ -106,7 +113,17 @@ func (srv *Session) consumeSingleCommand(ctx context.Context, reader *buffer.Rea
 	srv.mu.RLock()
 	if srv.closing.Load() {
 		srv.mu.RUnlock()
-		return nil
+
+		// NOTE: the received command is not started once the server has been
+		// closed. The client is informed and the connection is ended instead of
+		// silently dropping the command, the client would otherwise wait for a
+		// reply forever.
+		err = errorResponse(writer, newErrServerClosing())
+		if err != nil {
+			return err
+		}
+
+		return io.EOF
 	}
 
 	srv.wg.Add(1)
